@@ -145,13 +145,11 @@ def opsC10 : List (String × Op) := [
     let elevtn ← a.ints "elevtn"
     let distnc ← a.ints "distnc"
     let lstsq := (← a.int "lstsq") != 0
-    let maskUsed := (← a.int "mask_used") != 0
     let mask := a.optBools "mask"
     let isOut := outletFlags nxt.size outs
-    let mask' := if maskUsed then mask else none
     let spec := perOutletSpec nxt.size outs fun s =>
-      (segExclSpec nxt isOut mask' s).map fun cells => specSlope cells elevtn distnc lstsq
-    match segSlope nxt outs elevtn distnc lstsq mask maskUsed, spec with
+      (segExclSpec nxt isOut mask s).map fun cells => specSlope cells elevtn distnc lstsq
+    match segSlope nxt outs elevtn distnc lstsq mask, spec with
     | some m, some s => pure [("model.num", flagVals m (·.1)), ("model.den", flagVals m (·.2)),
                               ("model.ok", flagOk m), ("spec.num", flagVals s (·.1)),
                               ("spec.den", flagVals s (·.2)), ("spec.ok", flagOk s)]
@@ -164,9 +162,10 @@ def opsC10 : List (String × Op) := [
     let distnc ← a.ints "distnc"
     let half ← a.int "half"
     let lstsq := (← a.int "lstsq") != 0
+    let mask := a.optBools "mask"
     let spec := perOutletSpec ds.size outs fun s =>
-      (fixedLengthCellsSpec ds us distnc half s).map fun cells => specSlope cells elevtn distnc lstsq
-    match fixedLengthSlope ds us outs elevtn distnc half lstsq, spec with
+      (fixedLengthCellsSpec ds us distnc half mask s).map fun cells => specSlope cells elevtn distnc lstsq
+    match fixedLengthSlope ds us outs elevtn distnc half lstsq mask, spec with
     | some m, some s => pure [("model.num", flagVals m (·.1)), ("model.den", flagVals m (·.2)),
                               ("model.ok", flagOk m), ("spec.num", flagVals s (·.1)),
                               ("spec.den", flagVals s (·.2)), ("spec.ok", flagOk s)]
